@@ -31,6 +31,7 @@ def check(run: Run, prog: Program, model: Model, tier: str) -> None:
         "eq()'s validate fallback and is reported with a counterexample when some schema accepts the marker."
         " The fixed-value row of the validator must be the plain `!=` comparison, so that schemas equal under Props.__eq__ give identical verdicts.")
     run.explanation += ' KIND-CONFUSION also derives the absent-prop (Nil) construct: two unequal accept-everything schemas each equal `absent`.'
+    run.explanation += ' NE-NEGATION is decided path by path: every returning path of Schema.__ne__ has consulted the installed eq and none answers NotImplemented.'
     run.rule_text = ("one obligation per compared key / structural clause / marker pair; non-trivial = derived on interpreter paths")
     from ..entry import entry_transparent
     entry_transparent(run, prog, model, "validate", "VALIDATE-ENTRY")
@@ -118,7 +119,32 @@ def check(run: Run, prog: Program, model: Model, tier: str) -> None:
                     ok = True
                 if isinstance(inner, ast.Compare) and isinstance(inner.ops[0], ast.Eq):
                     ok = True
-        if ok:
+        # path by path: every returning path of `schema != other` has consulted the installed eq; none answers NotImplemented
+        # (both operands answering it makes `!=` fall back to identity: `schema != value` is then always True)
+        from ..engine import Interp as _I
+        st0 = model.schemas.get("IntSchema")
+        escapes_ne: List[str] = []
+        if st0 is not None:
+            it0 = _I(prog, model, unroll=1)
+
+            def run_ne(i: Any) -> Any:
+                return i.call_function(ne, [Sym("other", None, ("param", "other"))], {}, self_val=i.make_schema(st0, (), {}))
+            try:
+                for p0 in it0.run_paths(run_ne, max_paths=300):
+                    if p0.outcome != "return":
+                        continue
+                    cond0 = ", ".join(("" if b else "not ") + k[:40] for k, _, b in p0.facts[:2])
+                    called = any(e.kind == "call" and str(e.data.get("callee", "")).endswith((".eq", "__eq__")) for e in p0.events)
+                    if p0.value is not None and "NotImplemented" in p0.value.key():
+                        escapes_ne.append(f"returns NotImplemented when {cond0}")
+                    elif not called:
+                        escapes_ne.append(f"answers without consulting __eq__ when {cond0}")
+            except Exception:
+                pass
+        if escapes_ne:
+            run.violated("NE-NEGATION", "Schema.__ne__", ne.loc, "; ".join(sorted(set(escapes_ne)))[:300] + ": `!=` is then not the negation of `==`",
+                         witness="schema.none != None and schema.none == None are both True")
+        elif ok:
             run.holds("NE-NEGATION", "Schema.__ne__", ne.loc, "returns not self.__eq__(other) (dispatches to the installed eq)", nontrivial=False)
         else:
             run.violated("NE-NEGATION", "Schema.__ne__", ne.loc, "__ne__ is not the negation of __eq__", witness="a != b and a == b can both hold")
@@ -335,4 +361,10 @@ MUTANTS += [
 MUTANTS += [
     {"name": "eq() tests the operand against the schema's own class first", "rule": "EQ-FALLBACK",
      "edits": [("d42/validation/__init__.py", "    if isinstance(value, Schema):\n        return isinstance(value, schema.__class__) and (schema.props == value.props)", "    if isinstance(value, schema.__class__):\n        return bool(schema.props == value.props)")]},
+]
+
+# round 8: the seeded changes that were missed on first contact, replayed against the current tree
+MUTANTS += [
+    {"name": 'seeded C15-P', "rule": 'NE-NEGATION',
+     "edits": [('d42/declaration/types/_schema.py', '        return f"{self.__class__.__name__}({self.props!r})"\n\n    def __eq__(self, other: Any) -> bool:\n        return isinstance(other, self.__class__) and (self.props == other.props)\n\n    def __ne__(self, other: Any) -> bool:\n        return not self.__eq__(other)\n\n    def __or__(self, other: Any) -> Any:\n', '        return f"{self.__class__.__name__}({self.props!r})"\n\n    def __eq__(self, other: Any) -> bool:\n        if not isinstance(other, Schema):\n            return NotImplemented\n        return isinstance(other, self.__class__) and (self.props == other.props)\n\n    def __ne__(self, other: Any) -> bool:\n        if not isinstance(other, Schema):\n            return NotImplemented\n        return not self.__eq__(other)\n\n    def __or__(self, other: Any) -> Any:\n')]},
 ]
